@@ -290,6 +290,18 @@ def check_is_or_operator(
     return False
 
 
+def is_tau_leaf(node: ProcessTree) -> bool:
+    """Method to check if a node is a silent (tau) leaf, i.e. a leaf without
+    a label. An event type that happens to be called "tau" is not silent.
+
+    :param node: The node.
+    :type node: :class:`pm4py.objects.process_tree.obj.ProcessTree`
+    :return: Whether the node is a silent leaf.
+    :rtype: `bool`
+    """
+    return node.operator is None and node.label is None
+
+
 def infer_or_gate_from_node(
     event_sets: set["ev.EventSet"],
     node: ProcessTree,
@@ -312,7 +324,7 @@ def infer_or_gate_from_node(
         if child.operator is None:
             non_tau_children.append(child)
         elif child.operator.value == Operator.XOR.value:
-            if any(str(grandchild) == "tau" for grandchild in child.children):
+            if any(is_tau_leaf(grandchild) for grandchild in child.children):
                 tau_children.append(child)
             else:
                 non_tau_children.append(child)
@@ -323,7 +335,7 @@ def infer_or_gate_from_node(
         removed_tau_children = []
         for child in tau_children:
             for grandchild in child.children:
-                if str(grandchild) != "tau":
+                if not is_tau_leaf(grandchild):
                     grandchild.parent = node
                     removed_tau_children.append(grandchild)
         if check_is_or_operator(
